@@ -18,7 +18,7 @@ def theorems(pid):
 HEAD = r'''# DESIGN — machine-checked proof (Lean 4) for warcraft-rs properties C01–C20
 
 Status: built. All 20 properties are claimed in MANIFEST.json; every check (quick and thorough) exits 0 on the current /repo
-tree; 197 property theorems; 200 seeded changes from five rounds of sub-agents are all reported.
+tree; more than 200 property theorems; 208 seeded changes from six rounds of sub-agents are all reported.
 This file is assembled by `tools/mkdesign.py`: the prose is written by hand, the per-property tables, the
 findings list and the seeded-change table are generated from the same files the checks read.
 
@@ -237,12 +237,13 @@ suite, and was confirmed here in a scratch worktree (`tools/confirm_seed*.sh`: t
 demonstration fails with it and passes without). `tools/seedtest.sh <patch> Cxx` applies it to /repo, runs the
 check, and reverts. Five rounds were run (m1/m2; then m3/m4, m5/m6 and m7/m8 by agents that were also given one-line
 descriptions of the changes earlier agents had delivered, so that they would look elsewhere; the fifth round, m9/m10, by
-agents that were given the property text and a worktree and nothing else): 200 changes;
+agents that were given the property text and a worktree and nothing else; and a small sixth round, m11/m12, of the same kind
+for C01, C14, C16 and C19, the properties whose models grew last): 208 changes;
 `tools/seedregress.sh` re-runs recorded seeds against the current checks (`seeded/<id>/check.json`; a full run
 takes about five hours, so the later rounds carry the verdict of the run that closed them): all are caught except
 C12-m2, which no longer breaks the property since a later repair of /repo and is rightly not reported. The first
-version of the checks missed 6 of the first 40, 19 of the second 40, 14 of the third 40, 21 of the fourth 40 and 7 of
-the fifth 40 (later agents dig where earlier ones had not); every miss led to a stronger generator or oracle (marked
+version of the checks missed 6 of the first 40, 19 of the second 40, 14 of the third 40, 21 of the fourth 40, 7 of
+the fifth 40 and none of the last 8 (later agents dig where earlier ones had not); every miss led to a stronger generator or oracle (marked
 *strengthened* / "closed by"), never to a special case for the seed, and several of those strengthenings - and
 the agents' side remarks - exposed genuine defects of the unchanged code (D50..D55, D58..D64, D67, D69, D70). Seeds reported
 *without a failing input* (the model or a proof obligation stops matching, no oracle fires) are marked so: for
